@@ -29,6 +29,8 @@ ASSUMPTIONS = [
 
 CODES = ['modify0', 'modify1', 'add', 'add_explicit', 'detach0', 'commit', 'abort',
          'fail_begin<', 'fail_commit<', 'fail_vote<', 'fail_commit>', 'fail_vote>', 'reopen', 'other0', 'fail_pickle', 'add_child0']
+# (a first step only, not drawn for later steps: keeps the program space as it was)
+FIRST_ONLY = ['fail_pickle_add']
 
 
 def _records_of(s, tid):
@@ -100,8 +102,8 @@ def _run(codes, storage):
             t = w.abort()
         elif code == 'other0':
             t = w.other_commit(0)
-        elif code == 'fail_pickle':
-            t = w.unpicklable_commit()
+        elif code in ('fail_pickle', 'fail_pickle_add'):
+            t = w.unpicklable_commit(explicit=code.endswith('_add'))
             check(w.s.lastTransaction() == before_last, 'failed commit stored a transaction')
         elif code.startswith('fail_'):
             phase = code[5:-1]
@@ -227,14 +229,14 @@ HARNESSES = [
                     'id and are clean; after abort / failed commit (any phase) modified objects show their committed state and new '
                     'objects belong to no database and can be added again; close only outside a transaction; a reused connection '
                     'keeps no uncommitted state; other connections see only committed data',
-            symbolic='n step codes over 16 operations (incl. 5 failing-commit variants, a commit failing inside the connection while it serialises new objects, close/reopen, and another connection committing a change so that our commit conflicts)',
+            symbolic='n step codes over 16 operations + 1 that is tried as first step only (incl. 5 failing-commit variants, a commit failing inside the connection while it serialises new objects - reached by reference or handed over with add() -, close/reopen, and another connection committing a change so that our commit conflicts)',
             bounds='program length n per shard (quick: 3 exhaustively - split by first step - + length 4 for 10 first steps; thorough up to 5), 2 committed objects at start',
             oracle='ownership/state model (zverif/progs.py) + records of each commit from storage iteration',
             code=['Connection.add/_register/commit/_commit/_store_objects/tpc_begin/tpc_vote/tpc_finish/tpc_abort/abort/_abort/'
                   '_invalidate_creating/_tpc_cleanup/close/open', 'ObjectWriter.serialize', 'DB.open/_returnToPool'],
-            quick=dict(timeout=400, shards=shards(n=[3], storage=['file'], first=CODES) + shards(n=[4], storage=['file'], first=_FIRST)),
+            quick=dict(timeout=400, shards=shards(n=[3], storage=['file'], first=CODES + FIRST_ONLY) + shards(n=[4], storage=['file'], first=_FIRST)),
             thorough=dict(timeout=3000, shards=shards(n=[3], storage=['file', 'mapping', 'demo'], first=['any'])
-                          + shards(n=[4], storage=['file', 'mapping'], first=CODES) + shards(n=[5], storage=['file'], first=CODES))),
+                          + shards(n=[4], storage=['file', 'mapping'], first=CODES + FIRST_ONLY) + shards(n=[5], storage=['file'], first=CODES))),
     Harness('new_objects', _roundtrip,
             decides='a commit stores exactly the new objects reachable from changed ones (through attributes, plain containers and '
                     'weak references) or added explicitly, each under an id of this database (same harness as C14 roundtrip)',
